@@ -45,7 +45,7 @@ def run(chk):
     rng, th = chk.rng, chk.tier == 'thorough'
     reqs, metas = [], []
     for cfg in range(2500 if th else 400):
-        origin = rng.choice(['early', 'late', 'reaction', 'decoder', 'exit', 'after-disconnect', 'self-disconnect', 'flush'])
+        origin = rng.choice(['early', 'late', 'reaction', 'decoder', 'exit', 'after-disconnect', 'self-disconnect', 'flush', 'burst']) if not 40 <= cfg < 48 else 'burst'
         pv = rng.choice([47, 340, 578, 757])
         ids = proto.Ids(pv)
         # the exception objects of this run get numbers; number 100 is the original fault
@@ -58,6 +58,10 @@ def run(chk):
             excs[900 + len(excs)] = e
             return 900 + len(excs) - 1
         fault_cls = rng.choice([E0, E1, E2, E3, OSError, EOFError, ValueError, BrokenPipeError])
+        if origin == 'burst':
+            # a fault of the I/O family in the write phase, late in a long burst of queued packets (the loop holds such an error
+            # back until the read phase is over; with more than fifty packets written there is no read phase in that turn)
+            fault_cls = rng.choice([E3, OSError, BrokenPipeError, ConnectionResetError])
         # in a third of the runs the server has switched compression on: a connection started afterwards (by a handler, or by the
         # user) begins in plain framing all the same
         thr = rng.choice([None, None, 64])
@@ -134,6 +138,17 @@ def run(chk):
                     excs[100] = e
                     raise e
                 conn.register_packet_listener(boom_out, sb.play.KeepAlivePacket, outgoing=True, early=rng.random() < 0.5)
+            if origin == 'burst':
+                from minecraft.networking.packets import serverbound as sb
+                nth, seen_out = rng.choice([1, 5, 47, 48, 49, 50, 55, 60]), [0]
+
+                def boom_burst(p):
+                    seen_out[0] += 1
+                    if seen_out[0] == nth:
+                        e = fault_cls('outgoing listener, packet %d of the burst' % nth)
+                        excs[100] = e
+                        raise e
+                conn.register_packet_listener(boom_burst, sb.play.ChatPacket, outgoing=True, early=rng.random() < 0.5)
             handlers = []
             order = []
             funcs = []
@@ -203,6 +218,11 @@ def run(chk):
                 handlers.append(handlers[0])
                 order = order + [len(handlers) - 1]
             conn.connect()
+            if origin == 'burst':
+                for k in range(60):
+                    cp = sb.play.ChatPacket()
+                    cp.message = 'm%d' % k
+                    conn.write_packet(cp)
             first_sock = None
             res = net.run_threads(conn, max_threads=1)
             first_sock = servers[0].sock
